@@ -19,6 +19,8 @@
     c06_same_id_hyps_post       … and again after an execution; created ⊆ new memo
     c06_same_id_rerun           two consecutive executions: k-th creation of a key ↦ same id
     c06_world_exec              `runExecution` = the world's `begin; new…; finish` without interleaving
+    c06_driver_inv              the Bool invariant `winvB` that `svdriver structs` evaluates after every replayed
+                                hook-trace line of real salsa (`inv=ok`) is exactly the world invariant `WInv`
 
   NOT YET PROVED: nothing of the C06 list is missing.  Scope limits of the MODEL (not modelled, hence
   no theorem): (1) `seed_iteration` (fixpoint iterations mark the previous iteration's ids active and
@@ -30,6 +32,7 @@
 -/
 import SalsaVerif.Proofs.Structs
 import SalsaVerif.Proofs.StructsExamples
+import SalsaVerif.Proofs.StructsInv
 
 namespace SalsaVerif.Props.C06
 open SalsaVerif.Model.Structs
@@ -377,5 +380,17 @@ example :
         (fun w => w.ctxs)
       = (runExecution (fun x => x % 10) 1 [] c06RerunCs1 State.empty).toOption.map
         (fun o => [Ctx.idle o.active]) := by decide
+
+/-! ### the invariant evaluated on replayed implementation traces -/
+
+/-- `svdriver structs` (Drive/Structs.lean) replays hook traces of real salsa through the model and
+    prints `inv=ok` after a line iff `winvB` holds of the replayed world; that is exactly the
+    invariant `WInv` of `c06_distinct` (`winvFailures` names the violated components otherwise). -/
+theorem c06_driver_inv (w : World) : winvB w = true ↔ WInv w := winvB_iff w
+
+example :
+    ((runOps (fun x => x % 10) ⟨State.empty, [Ctx.idle []]⟩
+        (Op.begin 0 :: (c06RerunCs1.map (newOp 0 1) ++ [Op.finish 0 1]))).toOption.map winvB)
+      = some true := by decide
 
 end SalsaVerif.Props.C06
